@@ -253,3 +253,51 @@ c.exit_check(lambda S_, kind: [("actions-are-the-builders-results", "LOG", _trig
 c.ens("actions-is-a-new-list-of-actions", lambda S_: Implies(Not(Val.is_VNone(S_.result)), And(
     S_.is_fresh(S_.new.f(S_.result, "Trigger.__actions"), "list"),
     S_.elems(S_.new.f(S_.result, "Trigger.__actions"), OBJ("LocationAction")))))
+
+
+# =============================================================================== grpc.convert_response
+GR = "grpc/__init__.py"
+from pyvc.core import LogEntry
+
+
+def _proto_tp(it, v):
+    """A TracePointConfig protobuf message: typed fields (trusted record)."""
+    r = Val.r(v)
+    st = it.st
+    for f, ok in (("ID", Val.is_VStr), ("path", Val.is_VStr), ("line_number", Val.is_VInt)):
+        it.ctx.assume(ok(st.get_field(r, f)))
+
+
+c = contract(GR, "__convert_metric_definition", [])
+c.param("metrics", VAL)
+c.result = FRESH("list")
+c.logged = "convert_metrics"
+c.modifies = lambda S_: []
+c.coarse = True
+
+c = contract(GR, "convert_response", ["C11", "C03"])
+c.param("response", LIST(P("obj", cls="proto", inv=False)))
+c.result = FRESH("list")
+c.logged = "convert_response"
+c.modifies = lambda S_: [("all",)]
+# a tracepoint that cannot be interpreted affects only itself: nothing escapes for the whole response
+
+
+def _cr_body(L):
+    """one trigger is built per received tracepoint, from that tracepoint's own id / path / line / args / watches;
+    an uninterpretable one (None) contributes nothing; a new location is added, a known location gets the new
+    actions merged into it (keeps all of its actions)."""
+    bt = [e for e in L.iter_log() if e.label == "build_trigger"]
+    if len(bt) != 1:
+        return [("built-once-per-tracepoint", z3.BoolVal(False))]
+    b = bt[0]
+    r = L.seq.element(L.index)
+    h0, h1 = L.at_iteration_start(), L.now()
+    table = L.local("all_triggers")
+    same = And(h1.dhas_arr(table) == h0.dhas_arr(table), h1.dval_arr(table) == h0.dval_arr(table))
+    return [("built-from-its-own-fields", And(b.args[0] == h0.f(r, "ID"), b.args[1] == h0.f(r, "path"),
+                                              b.args[2] == h0.f(r, "line_number"))),
+            ("uninterpretable-tracepoint-contributes-nothing", Implies(Val.is_VNone(b.result), same))]
+
+
+c.loop("iter:response", body_ensures=_cr_body, body_no_raise=True, modifies=lambda L: [("all",)])
